@@ -850,11 +850,60 @@ def accumulator_bound(F, an, f, l):
     return x0 + total, "%d + %s = %d" % (x0, " + ".join(parts) or "0", x0 + total), adds
 
 
+def fold_budget(F, an, s):
+    """Idiom `iter.fold(init, |acc, x| acc + g(x))`: the site is the checked addition in the closure, one operand is the closure's
+    accumulator parameter and the closure returns that sum; the closure is handed to `fold` with an iterator of known length.
+    acc <= max(init) + runs x max(increment) must fit the accumulator's type."""
+    f = s.f
+    if "{closure" not in f.path or f.arg_count != 3:
+        return None
+    t = f.blocks[s.bb]["term"]
+    m = t["msg"]
+    acc_side = None
+    for side in ("a", "b"):
+        o = flow.origin(f, m[side])
+        if o[0] == "arg" and o[1] == 2:
+            acc_side = side
+    if acc_side is None:
+        return None
+    # the closure returns the sum
+    rds = [d for d in f.defs_of(0) if not f.blocks[d[0]]["cleanup"]]
+    if len(rds) != 1 or not feeds_from(f, rds[0], s.bb):
+        return None
+    runs = an.obs.get(("closure-runs", f.path, None)) or []
+    if not runs:
+        return None
+    obs = an.add_obs.get((f.path, s.bb))
+    if not obs or obs[0] is None or obs[1] is None:
+        return None
+    inc = obs[1] if acc_side == "a" else obs[0]
+    rng = ia.ty_range(f.locals[2]["ty"])
+    if not rng or rng[0] != 0:
+        return None
+    worst = 0
+    for parent, pb, rem, argiv in runs:
+        pt = F.fns[parent].blocks[pb]["term"]
+        if core.strip_generics(core.callee_path(pt) or "").rsplit("::", 1)[-1] != "fold" or len(argiv) != 3:
+            return None
+        init = argiv[1]
+        if rem is None or init is None:
+            return None
+        worst = max(worst, init[1] + rem[1] * inc[1])
+    if worst <= rng[1]:
+        return "fold accumulator: init + runs x increment = %d <= %d" % (worst, rng[1])
+    return None
+
+
 def accumulator_budget(F, an, sites):
     """Idiom: `x += d` inside counted loop(s) where x is a loop-carried accumulator (see accumulator_bound): the bound must
     fit the type.  A later `x + y` on the finished accumulator is bounded by bound + max(y)."""
     for s in sites:
         if s.status is not None or s.desc != "assert:Overflow:Add":
+            continue
+        fb = fold_budget(F, an, s)
+        if fb:
+            s.status = "budget"
+            s.detail = fb
             continue
         f = s.f
         t = f.blocks[s.bb]["term"]
